@@ -41,3 +41,20 @@ pub fn mailstd(args: &[&str]) -> Option<Vec<String>> {
     .to_string();
     Some(vec![hex(m.as_bytes())])
 }
+
+
+/// `urlcred <url> <user> <pass>`: a connection URL with credentials given to `from_url` (sync and tokio): the text of
+/// the error, or the Debug text of the builder
+pub fn urlcred(args: &[&str]) -> Option<Vec<String>> {
+    let url = unhex_str(args.first()?)?;
+    let mut out = vec![];
+    out.push(match lettre::SmtpTransport::from_url(&url) {
+        Ok(b) => format!("ok:{}", hex(format!("{b:?}").as_bytes())),
+        Err(e) => format!("err:{}", hex(format!("{e}|{e:?}").as_bytes())),
+    });
+    out.push(match lettre::AsyncSmtpTransport::<lettre::Tokio1Executor>::from_url(&url) {
+        Ok(b) => format!("ok:{}", hex(format!("{b:?}").as_bytes())),
+        Err(e) => format!("err:{}", hex(format!("{e}|{e:?}").as_bytes())),
+    });
+    Some(out)
+}
